@@ -11,7 +11,10 @@ import sys
 pid, n, pkg, run, detected = sys.argv[1:6]
 needs = sys.argv[6] if len(sys.argv) > 6 else ""
 src = "/tmp/seeded/%s/%s" % (pid, n)
-dst = os.path.join(os.path.dirname(os.path.dirname(os.path.abspath(__file__))), "seeded", "%s-%s" % (pid, n))
+prop, idx = pid, n
+if pid.startswith("R2-"):  # second round: changes 3 and 4 of the property
+    prop, idx = pid[3:], str(int(n) + 2)
+dst = os.path.join(os.path.dirname(os.path.dirname(os.path.abspath(__file__))), "seeded", "%s-%s" % (prop, idx))
 os.makedirs(dst, exist_ok=True)
 shutil.copy(os.path.join(src, "patch.diff"), os.path.join(dst, "patch.diff"))
 shutil.copy(os.path.join(src, "zz_demo_test.go"), os.path.join(dst, "zz_demo_test.go.txt"))
@@ -28,7 +31,7 @@ if os.path.exists(log):
 if not needs and os.path.exists(os.path.join(src, "notes.md")):
     needs = "see notes.md"
 meta = {
-    "property": pid,
+    "property": prop,
     "needs_to_manifest": needs,
     "demo": {"file": "zz_demo_test.go.txt (copy into %s/ as zz_demo_test.go)" % pkg,
              "command": "go test -vet=off -count=1 -run '%s' ./%s" % (run, pkg)},
@@ -37,7 +40,7 @@ meta = {
                   "result": result},
     "trial": trials,
     "detected_by": detected,
-    "apply": "git -C /repo apply /verif/seeded/%s-%s/patch.diff ; undo: git -C /repo checkout -- ." % (pid, n),
+    "apply": "git -C /repo apply /verif/seeded/%s-%s/patch.diff ; undo: git -C /repo checkout -- ." % (prop, idx),
 }
 json.dump(meta, open(os.path.join(dst, "meta.json"), "w"), indent=1)
 print("saved", dst, "|", result)
